@@ -698,6 +698,7 @@ def c12_model(case, log):
             s, r_ = H[snd[0]], H[rcv[0]]
             if s["t_start"] is not None and r_["t_start"] is not None:
                 m = max(s["t_start"], r_["t_start"])
+                g["m"] = m
                 if chan[0] == "mq":
                     g["c"] = m
                 else:
@@ -710,35 +711,51 @@ def c12_model(case, log):
         groups[hs[0]] = g
     # the death of a creator cancels its activities: nothing is asserted beyond that date
     death = {l["a"]: T(l["t"]) for l in log.of("actor_end")}
-    for g in groups.values():
-        g["deaths"] = {H[h]["creator"]: death.get(H[h]["creator"], INF) for h in g["hs"]}
-        g["limit"] = min(g["deaths"].values())
-        g["X"] = INF
-        g["cancellers"] = []
-    # cancellations: wait_for_or_cancel whose deadline precedes the completion, explicit cancels
+    # cancellation requests, per handle: wait_for_or_cancel (effective only if it times out) and explicit cancels
+    cand = {h: [] for h in H}
     for r in ops:
         op, o = r["op"], r["op"][0]
         if r.get("r") == "no-handle":
             continue
         if o == "twait" and isinstance(op[-1], dict) and op[-1].get("or_cancel") and "timeout" in op[-1] and op[1] in H:
-            g = groups[H[op[1]]["g"]]
-            D = r["t_req"] + op[-1]["timeout"]
-            if D < g["c"]:
-                g["cancellers"].append((D, r["a"], r["i"]))
+            cand[op[1]].append((r["t_req"] + op[-1]["timeout"], r["a"], r["i"]))
         elif o == "tcancel" and op[1] in H:
-            g = groups[H[op[1]]["g"]]
-            if r["t_req"] < g["c"]:
-                g["cancellers"].append((r["t_req"], r["a"], r["i"]))
+            cand[op[1]].append((r["t_req"], r["a"], r["i"]))
+    # the view of every handle: natural completion c, cancellation X (< c), end E = min(c, X)
+    V = {}
     for g in groups.values():
-        if g["cancellers"]:
-            g["X"] = min(d for d, _, _ in g["cancellers"])
-        g["E"] = min(g["c"], g["X"])
-    return H, groups, ops
+        deaths = {H[h]["creator"]: death.get(H[h]["creator"], INF) for h in g["hs"]}
+        base = dict(kind=g["kind"], size=g.get("size"), hs=g["hs"], deaths=deaths, limit=min(deaths.values()), uncertain=False)
+        m = g.get("m", None)
+        allc = [c_ for h in g["hs"] for c_ in cand[h]]
+        if m is not None and m < INF and any(d == m for d, _, _ in allc):
+            base["uncertain"] = True      # a cancellation at the very date of the match: order of two requests of the same date
+        if m is not None and m < INF and any(d < m for d, _, _ in allc):
+            # cancelled by one side before the other side arrived: no match; the other side waits for ever
+            for h in g["hs"]:
+                X = min([d for d, _, _ in cand[h]], default=INF)
+                V[h] = dict(base, c=INF, X=X, E=X, cancellers=[c_ for c_ in cand[h] if c_[0] == X], unmatched=True)
+        else:
+            c = g["c"]
+            cs = [c_ for c_ in allc if c_[0] < c]
+            X = min([d for d, _, _ in cs], default=INF)
+            for h in g["hs"]:
+                V[h] = dict(base, c=c, X=X, E=min(c, X), cancellers=cs)
+    return H, V, ops
 
 
 def check_c12(case, log, oc, labels):
-    H, groups, ops = c12_model(case, log)
+    H, V, ops = c12_model(case, log)
     near = False
+    # known defect (known/C12.json): a 0-byte communication whose latency ends exactly at a deadline times out although it completes then;
+    # when that wait is a wait_for_or_cancel the communication is moreover cancelled: the rest of what happens to it is a consequence
+    tainted = set()
+    for r in ops:
+        op = r["op"]
+        if op[0] == "twait" and op[1] in V and isinstance(op[-1], dict) and "timeout" in op[-1] and r.get("exc") == "Timeout":
+            v = V[op[1]]
+            if v["kind"] == "comm" and v["size"] == 0 and r["t_req"] + op[-1]["timeout"] == v["c"]:
+                tainted.update(v["hs"])
     for r in ops:
         op, o = r["op"], r["op"][0]
         if r.get("r") == "no-handle":
@@ -752,8 +769,14 @@ def check_c12(case, log, oc, labels):
             if op[1] not in H:
                 raise Invalid("wait on an unknown handle")
             x = H[op[1]]
-            g = groups[x["g"]]
+            g = V[op[1]]
             c, X, E = g["c"], g["X"], g["E"]
+            if g["uncertain"]:
+                labels.add("cancel-at-match-date(not asserted)")
+                continue
+            if op[1] in tainted and not (r.get("exc") == "Timeout" and "timeout" in opts and t0 + opts["timeout"] == c):
+                labels.add("after-zero-byte-tie(known defect)")
+                continue
             kind = g["kind"]
             if "timeout" in opts:
                 D = t0 + opts["timeout"]
@@ -849,7 +872,9 @@ def check_c12(case, log, oc, labels):
             hs = op[1]
             if any(h not in H for h in hs):
                 raise Invalid("wait_any on an unknown handle")
-            gs = [groups[H[h]["g"]] for h in hs]
+            gs = [V[h] for h in hs]
+            if any(g["uncertain"] for g in gs) or any(h in tainted for h in hs):
+                continue
             if any(H[h]["t_start"] is None or t0 < H[h]["t_start"] for h in hs):
                 raise Invalid("wait_any before the start")
             D = t0 + opts["timeout"] if "timeout" in opts and opts["timeout"] >= 0 else INF
@@ -871,8 +896,8 @@ def check_c12(case, log, oc, labels):
                 elif got_h is None:
                     oc.bad("wait_any-timeout-although-completed-before-deadline", what + ": an activity completes at %r < deadline %r, outcome %s at %r"
                            % (first, D, r.get("exc", res), t1))
-                elif groups[H[got_h]["g"]]["c"] > exp_t:
-                    oc.bad("wait_any-returns-unfinished-activity", what + ": returned handle %d (completion %r) at %r" % (got_h, groups[H[got_h]["g"]]["c"], t1))
+                elif V[got_h]["c"] > exp_t:
+                    oc.bad("wait_any-returns-unfinished-activity", what + ": returned handle %d (completion %r) at %r" % (got_h, V[got_h]["c"], t1))
                 elif t1 != exp_t:
                     oc.bad("wait_any-returns-at-wrong-date", what + ": first completion %r, returned at %r" % (first, t1))
             elif first == D:
@@ -889,8 +914,8 @@ def check_c12(case, log, oc, labels):
                     oc.bad("wait_any-timeout-at-wrong-date", what + ": deadline %r, time-out at %r" % (D, t1))
         elif o == "tinfo" and op[1] in H and "r" in r and isinstance(r["r"], dict):
             x = H[op[1]]
-            g = groups[x["g"]]
-            if g["limit"] <= t0 or x["t_start"] is None:
+            g = V[op[1]]
+            if g["limit"] <= t0 or x["t_start"] is None or g["uncertain"] or op[1] in tainted:
                 continue
             state = r["r"]["state"]
             if t0 < g["E"]:
@@ -911,7 +936,9 @@ def check_c12(case, log, oc, labels):
         name = l.get("name", "")
         for h, x in H.items():
             if name == "%s#%d" % (x["creator"], x["i"]):
-                g = groups[x["g"]]
+                g = V[h]
+                if g["uncertain"] or h in tainted:
+                    continue
                 if g["X"] == INF and g["limit"] >= g["c"] and l.get("state") != "CANCELED" and "finish" in l and T(l["finish"]) >= 0:
                     labels.add("completion-checked")
                     # (the completion SIGNAL is raised when a waiter notices the completion: only the finish date is the activity's)
